@@ -236,7 +236,7 @@ func TransformModuleFilesToModel( //nolint:funlen,gocognit,cyclop
 				relation := typeDef.GetRelations()[name]
 
 				if slices.Contains(existingRelationNames, name) {
-					lineIndex := utils.GetRelationLineNumber(name, lines)
+					lineIndex := utils.GetExtendedRelationLineNumber(typeDef.GetType(), name, lines)
 					line, col := utils.ConstructLineAndColumnData(lines, lineIndex, name)
 					transformErrors = multierror.Append(transformErrors, &ModuleTransformationSingleError{
 						Msg:    fmt.Sprintf("relation %s already exists on type %s", name, typeDef.GetType()),
